@@ -674,9 +674,7 @@ func (c *Cluster) Execute(req *Request) []byte {
 		g := m.GetGet()
 		e.Row = g.GetRow()
 		e.ReqGet = g
-		if g.TimeRange != nil {
-			e.Nonce = g.TimeRange.GetFrom()
-		}
+		e.Nonce = c.getNonce(g)
 		if e.Nonce == 0 && g.GetExistenceOnly() {
 			e.Kind = "Probe"
 		}
@@ -948,6 +946,33 @@ func (c *Cluster) execMaster(req *Request, hdrExc func(*Exec, string, string) []
 	return nil
 }
 
+// trNonce extracts the workload's tag from a time range: the lower bound, or
+// the upper bound of a range that is open at the start.
+func trNonce(tr *pb.TimeRange) uint64 {
+	if tr == nil {
+		return 0
+	}
+	if f := tr.GetFrom(); f != 0 {
+		return f
+	}
+	if tr.To != nil {
+		return tr.GetTo()
+	}
+	return 0
+}
+
+// getNonce is trNonce for a Get; a Get without any time range is attributed
+// by its row if the workload registered one (RowNonce).
+func (c *Cluster) getNonce(g *pb.Get) uint64 {
+	if n := trNonce(g.GetTimeRange()); n != 0 {
+		return n
+	}
+	if c.RowNonce != nil && !g.GetExistenceOnly() {
+		return c.RowNonce(g.GetRow())
+	}
+	return 0
+}
+
 func (c *Cluster) masterCheck(req *Request, e *Exec, hdrExc func(*Exec, string, string) []byte) []byte {
 	srv := req.Conn.Server
 	e.Table = "master"
@@ -1035,9 +1060,7 @@ func (c *Cluster) execMulti(req *Request, m *pb.MultiRequest,
 				e = c.newExec(req, "Get")
 				e.Row = a.Get.GetRow()
 				e.ReqGet = a.Get
-				if a.Get.TimeRange != nil {
-					e.Nonce = a.Get.TimeRange.GetFrom()
-				}
+				e.Nonce = c.getNonce(a.Get)
 			case a.Mutation != nil:
 				e = c.newExec(req, mutKind(a.Mutation, nil))
 				e.Row = a.Mutation.GetRow()
@@ -1265,9 +1288,7 @@ func (c *Cluster) execScan(req *Request, m *pb.ScanRequest,
 			return hdrExc(e, ExDoNotRetry, "bad scan")
 		}
 		e.Row = s.GetStartRow()
-		if s.TimeRange != nil {
-			e.Nonce = s.TimeRange.GetFrom()
-		}
+		e.Nonce = trNonce(s.TimeRange)
 		// the region must contain the start row (for a reversed scan, the
 		// row at or before it): validated against the model by the oracle of
 		// C01 through checkRegion for forward scans only.
@@ -1389,6 +1410,10 @@ func (c *Cluster) execScan(req *Request, m *pb.ScanRequest,
 	resp := &pb.ScanResponse{ScannerId: proto.Uint64(sc.ID), MoreResults: proto.Bool(moreResults),
 		MoreResultsInRegion: proto.Bool(moreInRegion), Ttl: proto.Uint32(60000)}
 	if len(pieces) == 0 && moreInRegion {
+		resp.HeartbeatMessage = proto.Bool(true)
+	} else if chunky && moreInRegion && m.GetClientHandlesHeartbeats() && c.Rand.Chance(knobs.Heartbeat) {
+		// the time limit was reached after some rows had been collected: the
+		// response is flagged as a heartbeat and carries them
 		resp.HeartbeatMessage = proto.Bool(true)
 	}
 	var all []Cell
